@@ -1338,14 +1338,13 @@ class Node:
 
         See also :ref:`iteration-callbacks`.
         """
-        if data:
+        if data is not None:
             assert data_id is None
             data_id = self._tree.calc_data_id(data)
-        if data_id:
+        if data_id is not None:
             assert match is None
-            return [
-                n for n in self.iterator(add_self=add_self) if n._data_id == data_id
-            ]
+            res = [n for n in self.iterator(add_self=add_self) if n._data_id == data_id]
+            return res[:max_results] if max_results else res
         return [
             n for n in self._search(match, add_self=add_self, max_results=max_results)
         ]
